@@ -62,16 +62,17 @@ fn c19_with_component<R>(kind: Kind, t: &[u8], embedded: bool, f: impl FnOnce(&p
 	}
 	let r = Ri::new(inp(&text)?).ok()?;
 	Some(match kind {
+		// (the all-at-once decompositions must hand out the same component)
 		Kind::UserInfo => {
 			let c = r.authority()?.user_info()?;
-			if c.as_bytes() != t {
+			if c.as_bytes() != t || r.authority()?.parts().user_info?.as_bytes() != t || r.parts().authority?.parts().user_info?.as_bytes() != t {
 				return None;
 			}
 			f(c.as_pct_str(), &**c)
 		}
 		Kind::Host => {
 			let c = r.authority()?.host();
-			if c.as_bytes() != t {
+			if c.as_bytes() != t || r.authority()?.parts().host.as_bytes() != t || r.parts().authority?.parts().host.as_bytes() != t {
 				return None;
 			}
 			f(c.as_pct_str(), &**c)
@@ -85,14 +86,14 @@ fn c19_with_component<R>(kind: Kind, t: &[u8], embedded: bool, f: impl FnOnce(&p
 		}
 		Kind::Query => {
 			let c = r.query()?;
-			if c.as_bytes() != t {
+			if c.as_bytes() != t || r.parts().query?.as_bytes() != t {
 				return None;
 			}
 			f(c.as_pct_str(), &**c)
 		}
 		Kind::Fragment => {
 			let c = r.fragment()?;
-			if c.as_bytes() != t {
+			if c.as_bytes() != t || r.parts().fragment?.as_bytes() != t {
 				return None;
 			}
 			f(c.as_pct_str(), &**c)
